@@ -24,7 +24,7 @@ na = [{"property_id": p, "reason": CLAIMED.get("_na", {}).get(p, "structural cla
 m = {
     "version": 1,
     "setup_cmd": f"cd /verif/sa && {ENV} go build -o /verif/bin/mhubsa ./cmd/mhubsa",
-    "hooks": {"guard": "verif", "enable": "none needed: the checks are static and read /repo's working tree; nothing is instrumented", "baseline_off_cmd": "for m in module minter-connector; do (cd /repo/$m && GOFLAGS=-mod=mod go test -vet=off -count=1 ./...); done", "source_commits": [], "add_only": True},
+    "hooks": {"guard": "verif", "enable": "none needed: the checks are static and read /repo's working tree; nothing is instrumented", "baseline_off_cmd": "for m in $(cat /w/out/gomods.txt); do MF=$(cd /repo/$m && . /w/out/goenv.sh && gomodflag); (cd /repo/$m && go test $MF -json -vet=off -count=1 -timeout 25m ./...); done", "source_commits": [], "add_only": True},
     "engines": [{"name": "mhubsa", "path": "/verif/sa", "serves_properties": [c["property_id"] for c in checks], "kind_free_text": "repository-specific static analyser over go/packages + go/ssa (x/tools v0.29.0): call graph, effect summaries with store-key prefix recovery, guards as CFG edge cuts, value provenance, pairing, plus a small Solidity/ABI reader; decides structural necessary conditions only"}],
     "checks": checks,
     "not_applicable": na,
